@@ -67,6 +67,10 @@ func DigestPE(r io.Reader, hash crypto.Hash, doPageHash bool) (*PEDigest, error)
 	if err != nil {
 		return nil, err
 	}
+	if doPageHash && (hvals.sizeOfHdr > int64(hvals.pageSize) || int64(buf.Len()) > hvals.sizeOfHdr) {
+		// the first page hash covers the headers padded to one page
+		return nil, errors.New("page hashes are not supported for PE headers larger than one page")
+	}
 	digester := setupDigester(hash, buf.Bytes(), hvals, sections, doPageHash)
 	// Hash gap between header and first section if it exists
 	nextSection := hvals.sizeOfHdr
